@@ -35,6 +35,8 @@ structure TM where
 structure Ro where
   id : RoRef
   hasList : Bool
+  /-- every listed server the tree uses carries its public key (the field is optional on the wire) -/
+  keysOk : Bool := true
   deriving DecidableEq, Repr
 
 /-- destination token of a protocol message -/
@@ -97,7 +99,7 @@ def rosterOf : TRef → RoRef
 
 /-- `TreeMarshal.MakeTree(ro)`: `none` = error -/
 def makeTree (tm : TM) (ro : Ro) : Bool :=
-  ro.id = tm.ro && tm.shape = .good && ro.hasList
+  ro.id = tm.ro && tm.shape = .good && ro.hasList && ro.keysOk
 
 /-- the `transmitMux` region for a message whose tree is present, then the reader goroutine -/
 def deliver (s : Srv) (to : Tok) (frm : Frm) (m3 : Bool) : Out × Srv :=
@@ -171,7 +173,7 @@ def process (s : Srv) : Env → Out × Srv
   | .treeMarshal tm =>
     if tm.id = .Z then (.ignored, s)
     else if s.slot tm.id ≠ .requested then (.ignored, s)
-    else if instanceRoster s tm.ro then sendTree s (some tm) (some ⟨tm.ro, true⟩)
+    else if instanceRoster s tm.ro then sendTree s (some tm) (some ⟨tm.ro, true, true⟩)
     else (.ok, { s with pendingTM := s.pendingTM ++ [tm] })        -- and asks the peer for the roster
   | .reqRoster _ => (.ok, { s with replies := s.replies + 1 })     -- the roster, or an empty one
   | .sendRoster ro =>
@@ -201,6 +203,8 @@ def processOld (s : Srv) : Env → Out × Srv
   | .respTree (some tm) (some ro) =>
     if tm.id ≠ .Z ∧ s.slot tm.id ≠ .absent ∧ ro.id = tm.ro ∧ tm.shape = .emptyChildren then
       (.panic, s)                                                   -- `tm.Children[0]`
+    else if tm.id ≠ .Z ∧ s.slot tm.id = .requested ∧ ro.id = tm.ro ∧ tm.shape = .good ∧ ro.hasList ∧ ¬ ro.keysOk then
+      (.panic, s)                                                   -- `ServerIdentity.Public.Clone()` on a nil key
     else process s (.respTree (some tm) (some ro))
   | .reqRoster r =>
     if s.slot .R = .requested ∨ s.slot .U = .requested ∨ s.slot .Z = .requested then
@@ -243,6 +247,15 @@ def tm? (a b c : String) : Option TM := do
   let i ← tref a; let r ← roref b; let sh ← shape c
   pure ⟨i, r, sh⟩
 
+/-- roster token: `1` the full list, `0` no list, `2` the list with a member whose key is missing -/
+def ro? (r l : String) : Option Ro := do
+  let id ← roref r
+  match l with
+  | "1" => pure ⟨id, true, true⟩
+  | "0" => pure ⟨id, false, true⟩
+  | "2" => pure ⟨id, true, false⟩
+  | _ => none
+
 def showSlot : Slot → String
   | .absent => "absent" | .requested => "requested" | .present => "present"
 
@@ -256,12 +269,12 @@ def parse : List String → Option Env
   | ["proto", t, f, b] => do pure (.proto (← tok t) (← frm f) (← bool b) true)
   | ["reqtree", t, v] => do pure (.reqTree (← tref t) (← bool v))
   | ["resptree", "-", "-"] => some (.respTree none none)
-  | ["resptree", "-", r, l] => do pure (.respTree none (some ⟨← roref r, ← bool l⟩))
+  | ["resptree", "-", r, l] => do pure (.respTree none (some (← ro? r l)))
   | ["resptree", a, b, c, "-"] => do pure (.respTree (some (← tm? a b c)) none)
-  | ["resptree", a, b, c, r, l] => do pure (.respTree (some (← tm? a b c)) (some ⟨← roref r, ← bool l⟩))
+  | ["resptree", a, b, c, r, l] => do pure (.respTree (some (← tm? a b c)) (some (← ro? r l)))
   | ["treemarshal", a, b, c] => do pure (.treeMarshal (← tm? a b c))
   | ["reqroster", r] => do pure (.reqRoster (← roref r))
-  | ["sendroster", r, l] => do pure (.sendRoster ⟨← roref r, ← bool l⟩)
+  | ["sendroster", r, l] => do pure (.sendRoster (← ro? r l))
   | ["config", w] => do pure (.config (← bool w))
   | _ => none
 
